@@ -99,4 +99,4 @@ def run_resolve_case(ctx, suite, case, oracle=None, compare=True):
 
 def slim(case):
     """cases as stored in replays / samples: drop bulky derived fields"""
-    return {k: v for k, v in case.items() if k not in ('mol', 'part', 'appearance')} if isinstance(case, dict) else case
+    return {k: v for k, v in case.items() if k not in ('part', 'appearance')} if isinstance(case, dict) else case
